@@ -197,6 +197,13 @@ def one_selection(w, R, X, T, flag, debug, by_ref=False):
                     v.append(f"non-debug node {a} added to the selection with RUN_DEBUG_NODES on")
                 elif not all(d in got for d in w.all_deps(a) if d in w.nodes):
                     v.append(f"[C13] debug node {a} pulled in although its inputs {[d for d in w.all_deps(a) if d not in got]} are not selected")
+        # C02: a selected sub-graph keeps EVERY dependency edge between two selected nodes (the scheduler orders by them)
+        w_edges = {(d, n) for n in w.order for d in w.all_deps(n) if d in w.nodes}
+        for label, g in (("executor graph", ex.graph), ("make_subgraph result", dag.graph_ids.make_subgraph(target_nodes=T, exclude_nodes=X, root_nodes=R))):
+            sel = set(g.nodes)
+            exp_e = {(a, b) for a, b in w_edges if a in sel and b in sel}
+            if set(g.edges) != exp_e:
+                v.append(f"[C02] {label} for R={R} X={X} T={T} has edges {sorted(g.edges)} instead of the dependency edges {sorted(exp_e)} between its nodes")
         w.selection = got
         w.calls = {}
         out, ctrl = run_controlled(lambda: ex(), w)
